@@ -301,7 +301,12 @@ int main(int argc, char **argv) {
             /* explicit element count override: token "n=<k>" right before ':' (for error-case requests) */
             long long vals_n=0; int colon=-1; for(int k=a;k<nt;k++) if(!strcmp(tok[k],":")){colon=k;break;}
             if (mt<0) { fprintf(out," -999\n"); continue; }
-            int typed = !strcmp(lay,"t"); int k = (lay[0]=='v'||lay[0]=='r') ? atoi(lay+1) : 1; if (k<1) k=1; int resized = lay[0]=='r';
+            /* layouts: c contiguous predefined type; t typed API; and derived buffer types that all place element e at slot e*k
+               (k>=1) but are built with different MPI constructors, so that every branch of the library's datatype decoder
+               and packer is reached:  v vector  r resized(bufcount=nelems)  h hvector  x indexed  b indexed_block  H hindexed
+               s 2-D subarray  S struct  n contiguous(nelems, resized)  d dup(vector)  k<n>: contiguous(n) with bufcount nelems/n */
+            int typed = !strcmp(lay,"t"); char lk = lay[0]; int k = strchr("vrhxbHsSnd",lk) && lay[1] ? atoi(lay+1) : 1; if (k<1) k=1; int resized = lk=='r';
+            int kcont = (lk=='k' && lay[1]) ? atoi(lay+1) : 0;
             size_t rawlen; unsigned char *raw=mkbuf(nelems,k,mt,&rawlen); unsigned char *data=raw+GUARD;
             if (w && colon>=0) { vals_n=nt-colon-1; for (size_t e=0;e<nelems && (long long)e<vals_n;e++) { const char *tk=tok[colon+1+e]; if (is_big_unsigned(tk) && (mt==T_FLOAT||mt==T_DOUBLE)) { if (mt==T_FLOAT) ((float*)data)[e*k]=(float)strtoull(tk,NULL,10); else ((double*)data)[e*k]=(double)strtoull(tk,NULL,10); } else set_elem(data,mt,e*k,parse_val(tk)); } }
             /* varm with imap: the user buffer is addressed through imap; the script gives imap in elements and the
@@ -312,6 +317,23 @@ int main(int argc, char **argv) {
                     if (w && colon>=0) { size_t idx[MAXDIM]={0}; for(size_t e=0;e<nelems;e++){ size_t off=0; for(int d=0;d<nd;d++) off+=idx[d]*im[d]; if ((long long)e<vals_n) set_elem(data,mt,off,parse_val(tok[colon+1+e])); for(int d=nd-1;d>=0;d--){ if(++idx[d]<(size_t)ct[d])break; idx[d]=0;} } } } }
             unsigned char *orig=malloc(rawlen); memcpy(orig,raw,rawlen);
             MPI_Datatype bt=mt_mpi(mt); MPI_Offset bc=nelems; int hasdt=0; MPI_Datatype dt=MPI_DATATYPE_NULL;
+            if (kcont>1 && !imapspan && nelems>0 && nelems%kcont==0) { MPI_Type_contiguous(kcont,bt,&dt); MPI_Type_commit(&dt); hasdt=1; bt=dt; bc=nelems/kcont; }
+            if (strchr("hxbHsSnd",lk) && lay[1] && !imapspan && nelems>0) {
+                int n_=(int)nelems; MPI_Aint esz=(MPI_Aint)mt_size[mt]; MPI_Datatype el=bt, t1;
+                int *bl=malloc(sizeof(int)*n_), *di=malloc(sizeof(int)*n_); MPI_Aint *ad=malloc(sizeof(MPI_Aint)*n_);
+                for(int e=0;e<n_;e++){ bl[e]=1; di[e]=e*k; ad[e]=(MPI_Aint)e*k*esz; }
+                switch (lk) {
+                  case 'h': MPI_Type_create_hvector(n_,1,(MPI_Aint)k*esz,el,&dt); break;
+                  case 'x': MPI_Type_indexed(n_,bl,di,el,&dt); break;
+                  case 'b': MPI_Type_create_indexed_block(n_,1,di,el,&dt); break;
+                  case 'H': MPI_Type_create_hindexed(n_,bl,ad,el,&dt); break;
+                  case 's': { int sizes[2]={n_,k}, sub[2]={n_,1}, sta[2]={0,0}; MPI_Type_create_subarray(2,sizes,sub,sta,MPI_ORDER_C,el,&dt); } break;
+                  case 'S': { MPI_Type_vector(n_,1,k,el,&t1); int one=1; MPI_Aint z=0; MPI_Type_create_struct(1,&one,&z,&t1,&dt); MPI_Type_free(&t1); } break;
+                  case 'n': MPI_Type_create_resized(el,0,(MPI_Aint)k*esz,&t1); MPI_Type_contiguous(n_,t1,&dt); MPI_Type_free(&t1); break;
+                  default:  MPI_Type_vector(n_,1,k,el,&t1); MPI_Type_dup(t1,&dt); MPI_Type_free(&t1); break;
+                }
+                MPI_Type_commit(&dt); hasdt=1; bt=dt; bc=1; free(bl); free(di); free(ad);
+            } else
             if (k>1 && !imapspan && !resized) { MPI_Type_vector((int)nelems,1,k,bt,&dt); MPI_Type_commit(&dt); hasdt=1; bt=dt; bc=1; }
             if (k>1 && !imapspan && resized) { /* one field of an array of structs: resized(base, lb 0, extent k*size), bufcount = nelems */
                 MPI_Type_create_resized(bt,0,(MPI_Aint)(k*mt_size[mt]),&dt); MPI_Type_commit(&dt); hasdt=1; bt=dt; bc=nelems; }
